@@ -74,3 +74,42 @@ def check(rep, M, rid, functions):
                               "failing the documented way", M.where(fq, t))
     rep.count("exception_handlers", n)
     return n
+
+
+# function -> list of (exception type, reason it cannot fire for a valid input / is the documented failure)
+CONFIRMED_RAISES = {
+    "matid.clustering.sbc.SBC.get_clusters": [("ValueError", "the documented failure: zero cell vector along a periodic direction")],
+    "matid.classification.classifier.Classifier.classify": [("ValueError", "the documented failure: zero-volume cell with periodic directions")],
+    "matid.geometry.geometry.expand_pbc": [("ValueError", "pbc that is neither a bool nor three flags: callers pass get_pbc() or literals")],
+    "matid.geometry.geometry.to_cartesian": [("ValueError", "positions not (n, 3): callers pass position arrays")],
+    "matid.geometry.geometry.to_scaled": [("ValueError", "positions not (n, 3): callers pass position arrays")],
+}
+
+
+def check_raises(rep, M, rid, functions, entry):
+    """every `raise` outside an exception handler in `functions` must be a confirmed one: a new raise on the paths of an entry point
+    is a new way of not returning normally"""
+    n = 0
+    for fq in sorted(functions):
+        d = M.defs.get(fq)
+        if not isinstance(d, ast.FunctionDef):
+            continue
+        confirmed = list(CONFIRMED_RAISES.get(fq, []))
+        in_handler = {id(r) for t in M.own_nodes(fq) if isinstance(t, ast.ExceptHandler) for r in ast.walk(t) if isinstance(r, ast.Raise)}
+        for r in M.own_nodes(fq):
+            if not isinstance(r, ast.Raise) or id(r) in in_handler:
+                continue
+            n += 1
+            exc = r.exc.func if isinstance(r.exc, ast.Call) else r.exc
+            name = norm(exc) if exc is not None else "re-raise"
+            match = next((c for c in confirmed if c[0] == name), None)
+            construct = f"{fq.replace('matid.', '')}: raise {name}"
+            if match:
+                confirmed.remove(match)
+                rep.ok(rid, construct + f" [confirmed: {match[1]}]")
+            else:
+                rep.violation(rid, construct, f"`{norm(r)[:70]}` is not in the confirmed table of failure sites reachable from {entry}: structures that were "
+                              "processed before now make the call raise (the only permitted failure is the zero-cell-vector ValueError of the entry point)",
+                              M.where(fq, r))
+    rep.count("raise_sites", n)
+    return n
